@@ -232,7 +232,11 @@ func runSpecial(g *hc.Gen, scratch string, thorough bool, cs *childStats, sigs m
 		{"inline_in_subquery", "SELECT COUNT(*) FROM big WHERE grp IN (SELECT a FROM JSON_INLINE('', '[{\"a\":1},{\"a\":2}]') j)"},
 		{"inline_csv_in_subquery", "SELECT id, (SELECT MAX(c1) FROM CSV_INLINE(',', '1\n2\n3', 'UTF8', TRUE) x WHERE c1 <= big.grp) FROM big WHERE EXISTS (SELECT 1 FROM JSON_INLINE('', '[{\"a\":1},{\"a\":5}]') j WHERE j.a >= big.grp)"},
 		{"recursive_setop_subquery", "WITH RECURSIVE r (n) AS (SELECT 1 UNION ALL SELECT n + 1 FROM r WHERE n < 3 AND EXISTS (SELECT 1 FROM small WHERE grp IN (SELECT 1 UNION SELECT 2 FROM small b2 WHERE b2.id > 5000))) SELECT * FROM r"},
-		{"recursive_parallel_term", "WITH RECURSIVE r (n) AS (SELECT id FROM big WHERE id <= 165 UNION ALL SELECT n + 1000 FROM r WHERE n < 1000 AND n % 7 IN (SELECT grp FROM small INTERSECT SELECT grp FROM big)) SELECT COUNT(*) FROM r"},
+		{"recursive_parallel_term", "WITH RECURSIVE r (n) AS (SELECT id FROM big WHERE id <= 100 UNION ALL SELECT n + 1000 FROM r WHERE n < 1000 AND n % 7 IN (SELECT grp FROM small INTERSECT SELECT grp FROM big)) SELECT COUNT(*) FROM r"},
+		{"alter_add_no_default", "ALTER TABLE big ADD (e1, e2)"},
+		{"alter_add_mixed_defaults", "ALTER TABLE big ADD (e3, e4 DEFAULT (SELECT COUNT(*) FROM small s WHERE s.grp < 5), e5) FIRST"},
+		{"alter_add_slow_default", "ALTER TABLE big ADD (e6 DEFAULT (SELECT MAX(s.name) FROM small s WHERE s.grp = big.grp), e7, e8 DEFAULT UPPER(txt) || id) AFTER grp"},
+		{"alter_add_single", "ALTER TABLE big ADD e9 LAST; ALTER TABLE big ADD (e10, e11, e12, e13) BEFORE id"},
 		{"prepared_literal", "PREPARE p1 FROM 'SELECT id, val + ? FROM big WHERE grp < ?'; EXECUTE p1 USING 50, 4; EXECUTE p1 USING 1.5, 9"},
 		{"prepared_variable", "DECLARE @pv := 3; PREPARE p2 FROM 'SELECT id, val + ?, txt || ? FROM big WHERE grp < ? ORDER BY val * ?'; EXECUTE p2 USING @pv, @pv || 'x', @pv + 2, @pv - 5; EXECUTE p2 USING @pv + 1, 'lit', (SELECT MAX(grp) FROM small), 2"},
 		{"prepared_named", "DECLARE @pn := 7; PREPARE p3 FROM 'SELECT id, :a + val, :b FROM big WHERE val > :a - 100 AND EXISTS (SELECT 1 FROM small s WHERE s.id = big.id + :c)'; EXECUTE p3 USING @pn * 2 AS a, (SELECT COUNT(*) FROM small) AS b, @pn AS c"},
